@@ -18,8 +18,7 @@ from harness import core, wasm_runner, wasmenc, wasmgen
 from harness.project_wasm import limbs
 from harness.tlc import MachineryError
 
-RUN_CFG = """CONSTANT Cases <- JsonCases
-INIT Init
+RUN_CFG = """INIT Init
 NEXT Next
 CHECK_DEADLOCK FALSE
 INVARIANT ImplOutcome
@@ -30,7 +29,7 @@ INVARIANT ImplCalls
 INVARIANT NeverStuck
 INVARIANT TypeOK
 """
-MC_CFG = """CONSTANT Cases <- McCases
+MC_CFG = """CONSTANT Wide = %s
 INIT Init
 NEXT Next
 CHECK_DEADLOCK FALSE
@@ -40,10 +39,11 @@ INVARIANT Deterministic
 INVARIANT StackDiscipline
 INVARIANT LawResults
 INVARIANT LawStatus
+INVARIANT LawInit
 INVARIANT ObsPreserved
 """
 BITS = {"i32": 32, "i64": 64}
-FUEL = 20000
+FUEL = 4000
 
 
 # ---------------------------------------------------------------------------------------------------
@@ -75,13 +75,13 @@ def make_job(it, form="wat"):
         calls = []
         for c in tr:
             ft = func_type(mod, c["fn"])
-            calls.append({"fn": c["fn"], "args": c["args"], "tys": c["tys"], "rtys": ft[1] if ft else []})
+            calls.append({"fn": c["fn"], "args": [str(a) for a in c["args"]], "tys": c["tys"], "rtys": ft[1] if ft else []})
         traces.append(calls)
     ext = []
     for x in it.get("ext") or []:
         im = [i for i in mod["imports"] if i["name"] == x["name"]][0]
         ext.append({"mod": im["mod"], "name": x["name"], "params": mod["types"][im["type"]]["params"], "ty": x["ty"],
-                    "rets": x["rets"]})
+                    "rets": [str(v) for v in x["rets"]]})
     job = {"id": it["key"], "traces": traces, "exports": exports, "ext": ext}
     if form == "wat":
         job["wat"] = it.get("wat") or wasmgen.render_wat(mod)
@@ -169,7 +169,7 @@ def corpus(ctx):
     rng = ctx.rng
     thorough = ctx.tier == "thorough"
     items = wasmgen.directed(random.Random(rng.randrange(1 << 30)), thorough)
-    nrand = 160 if thorough else 14
+    nrand = 160 if thorough else 8
     for k in range(nrand):
         seed = rng.randrange(1 << 30)
         items.append(wasmgen.random_item(random.Random(seed), "rand%d" % seed, size=1.0 + (k % 3) * 0.5,
@@ -253,7 +253,7 @@ class Engine:
                    "exception, a crash of the process or a silent result is not a trap")
         ctx.assume("memory.grow inside the declared maximum succeeds (the specification allows it to fail)")
         if ctx.only is None:
-            res = ctx.tlc("Wasm_MC", MC_CFG, label="Wasm semantics sanity", workers=8)
+            res = ctx.tlc("Wasm_MC", MC_CFG % ("TRUE" if ctx.tier == "thorough" else "FALSE"), label="Wasm semantics sanity", workers=8)
             for e in res.errors:
                 raise MachineryError("Wasm.tla sanity model fails: %s\n%s" % (e, e.text[:1500]))
         items = corpus(ctx)
